@@ -34,7 +34,7 @@ const c31ChainLen = 420
 
 var (
 	c31Once   sync.Once
-	c31Chain  []*c31Blk // index = height (entry 0 unused)
+	c31Chain  []*c31Blk // index = height (0 = the genesis-like first block)
 	c31Parser = chaintest.NewTestParser()
 	c31Err    error
 )
@@ -45,9 +45,12 @@ func c31Build() {
 	ts := int64(1_700_000_000_000)
 	nonce := uint64(0)
 	c31Chain = make([]*c31Blk, c31ChainLen+1)
-	for h := uint64(1); h <= c31ChainLen; h++ {
+	for h := uint64(0); h <= c31ChainLen; h++ {
 		ts += int64(1 + (h*7)%900)
 		ntx := int((h*2654435761 >> 7) % 4) // 0..3 txs, fixed per height
+		if h == 0 {
+			ntx = 2 // the first block carries transactions so that a stale height 0 is also visible through GetTransaction
+		}
 		txs := make([]*chain.Transaction, 0, ntx)
 		results := make([]*chain.Result, 0, ntx)
 		for i := 0; i < ntx; i++ {
@@ -154,12 +157,13 @@ func (c c31Case) shape() string {
 
 func (c c31Case) hasGap() bool {
 	var last uint64
+	started := false
 	for _, o := range c.Ops {
 		if o.Kind == "notify" {
-			if last != 0 && o.H != last+1 {
+			if started && o.H != last+1 {
 				return true
 			}
-			last = o.H
+			last, started = o.H, true
 		}
 	}
 	return false
@@ -168,6 +172,7 @@ func (c c31Case) hasGap() bool {
 type c31Stats struct {
 	notifies, gaps, redeliveries, reopens, crashes, heightProbes, txProbes     int
 	servedBlocks, servedTxs, absentAnswers, evictionsObserved, reopenCompares int
+	fromZero, genesisServed, genesisAbsent                                     int
 }
 
 func (s *c31Stats) add(o *c31Stats) {
@@ -183,6 +188,9 @@ func (s *c31Stats) add(o *c31Stats) {
 	s.absentAnswers += o.absentAnswers
 	s.evictionsObserved += o.evictionsObserved
 	s.reopenCompares += o.reopenCompares
+	s.fromZero += o.fromZero
+	s.genesisServed += o.genesisServed
+	s.genesisAbsent += o.genesisAbsent
 }
 
 // c31Answers is the complete observable answer vector of an indexer over the
@@ -211,9 +219,6 @@ func c31Observe(ix *indexer.Indexer, maxH uint64, st *c31Stats) (*c31Answers, st
 			}
 			a.heights[h] = string(b)
 		}
-		if h == 0 {
-			continue
-		}
 		cb := c31Chain[h]
 		if blk, err := ix.GetBlock(cb.eb.Block.GetID()); err == nil {
 			b, merr := blk.Marshal()
@@ -237,12 +242,17 @@ func c31Observe(ix *indexer.Indexer, maxH uint64, st *c31Stats) (*c31Answers, st
 }
 
 // c31Judge compares an answer vector with the model (notified set, last height H, window W).
-func c31Judge(a *c31Answers, notified map[uint64]bool, H, W, maxH uint64, gap bool, when string, st *c31Stats) (string, string) {
+//
+// started tells whether anything was notified yet (H alone cannot: height 0 is a
+// legitimate notified height - a VM delivers its genesis block first). A
+// notified height h is inside the window iff h > H-W, written h+W > H so that
+// nothing underflows while H < W (then nothing has left the window yet).
+func c31Judge(a *c31Answers, notified map[uint64]bool, started bool, H, W, maxH uint64, gap bool, when string, st *c31Stats) (string, string) {
 	pfx := "C31/"
 	if gap {
 		pfx = "C31/height-gap/"
 	}
-	if H == 0 {
+	if !started {
 		if a.latest != "" {
 			return pfx + "latest-wrong", when + ": GetLatestBlock answers before any notification"
 		}
@@ -250,7 +260,7 @@ func c31Judge(a *c31Answers, notified map[uint64]bool, H, W, maxH uint64, gap bo
 		return pfx + "latest-wrong", fmt.Sprintf("%s: GetLatestBlock is not the last notified block (height %d)", when, H)
 	}
 	for h := uint64(0); h <= maxH; h++ {
-		want := h != 0 && notified[h] && h+W > H
+		want := started && notified[h] && h+W > H
 		got, got2 := a.heights[h], a.byID[h]
 		if !want {
 			if got != "" || got2 != "" {
@@ -259,17 +269,18 @@ func c31Judge(a *c31Answers, notified map[uint64]bool, H, W, maxH uint64, gap bo
 				}
 				return pfx + "never-accepted-block-served", fmt.Sprintf("%s: height %d is served but was never notified", when, h)
 			}
-			if h != 0 {
-				for _, txID := range c31Chain[h].txs {
-					st.txProbes++
-					if v := a.txs[txID]; v != "" {
-						if notified[h] {
-							return pfx + "stale-tx-served", fmt.Sprintf("%s: tx %s of height %d is reported (%s) although the block is older than the window (last %d, window %d)", when, txID, h, v[:min(len(v), 60)], H, W)
-						}
-						return pfx + "never-accepted-tx-served", fmt.Sprintf("%s: tx %s of never notified height %d is reported", when, txID, h)
+			for _, txID := range c31Chain[h].txs {
+				st.txProbes++
+				if v := a.txs[txID]; v != "" {
+					if notified[h] {
+						return pfx + "stale-tx-served", fmt.Sprintf("%s: tx %s of height %d is reported (%s) although the block is older than the window (last %d, window %d)", when, txID, h, v[:min(len(v), 60)], H, W)
 					}
+					return pfx + "never-accepted-tx-served", fmt.Sprintf("%s: tx %s of never notified height %d is reported", when, txID, h)
 				}
-				st.absentAnswers++
+			}
+			st.absentAnswers++
+			if h == 0 && notified[0] {
+				st.genesisAbsent++
 			}
 			continue
 		}
@@ -281,6 +292,9 @@ func c31Judge(a *c31Answers, notified map[uint64]bool, H, W, maxH uint64, gap bo
 			return pfx + "wrong-block-served", fmt.Sprintf("%s: height %d: served block differs from the notified one", when, h)
 		}
 		st.servedBlocks++
+		if h == 0 {
+			st.genesisServed++
+		}
 		for i, txID := range cb.txs {
 			st.txProbes++
 			wantTx := fmt.Sprintf("%s|%d|%x", txID, cb.eb.Block.Tmstmp, cb.res[i])
@@ -306,9 +320,6 @@ func c31Diff(a, b *c31Answers, maxH uint64) string {
 		}
 		if a.byID[h] != b.byID[h] {
 			return fmt.Sprintf("GetBlock(id of %d): present %v -> %v", h, a.byID[h] != "", b.byID[h] != "")
-		}
-		if h == 0 {
-			continue
 		}
 		for _, txID := range c31Chain[h].txs {
 			if a.txs[txID] != b.txs[txID] {
@@ -338,7 +349,8 @@ func runC31(c c31Case, st *c31Stats) (string, string) {
 	}()
 	var (
 		W        = c.Window
-		H        uint64
+		H        uint64 // last notified height, meaningful once started
+		started  bool
 		notified = map[uint64]bool{}
 		order    []uint64
 		maxH     = uint64(3)
@@ -356,20 +368,23 @@ func runC31(c c31Case, st *c31Stats) (string, string) {
 		when := fmt.Sprintf("after op %d %s", i, o.Kind)
 		switch o.Kind {
 		case "notify":
-			if H != 0 && o.H != H+1 {
+			if started && o.H != H+1 {
 				gap = true
 				st.gaps++
+			}
+			if !started && o.H == 0 {
+				st.fromZero++
 			}
 			if err := ix.Notify(ctx, c31Chain[o.H].eb); err != nil {
 				return "C31/notify-error", fmt.Sprintf("Notify(height %d) failed: %v", o.H, err)
 			}
 			st.notifies++
-			if notified[o.H-W] && o.H >= W {
+			if o.H >= W && notified[o.H-W] {
 				st.evictionsObserved++
 			}
 			notified[o.H] = true
 			order = append(order, o.H)
-			H = o.H
+			H, started = o.H, true
 			when += fmt.Sprintf("(%d)", o.H)
 		case "redeliver":
 			k := min(o.K, len(order))
@@ -411,7 +426,7 @@ func runC31(c c31Case, st *c31Stats) (string, string) {
 		if herr != "" {
 			return "harness", herr
 		}
-		if k, d := c31Judge(a, notified, H, W, maxH, gap, when, st); d != "" {
+		if k, d := c31Judge(a, notified, started, H, W, maxH, gap, when, st); d != "" {
 			return k, d
 		}
 	}
@@ -423,10 +438,19 @@ var c31Windows = []uint64{1, 2, 3, 5, 8}
 func genC31(rng interface{ IntN(int) int }, maxOps int, gaps bool) c31Case {
 	c := c31Case{Window: c31Windows[rng.IntN(len(c31Windows))]}
 	W := c.Window
-	H := uint64(rng.IntN(3)) // first notified height is H+1 (1..3)
-	if rng.IntN(4) == 0 {
-		H = uint64(rng.IntN(40))
+	// first notified height: 0 in 9 of 20 histories (a VM delivers its genesis
+	// block first, so height 0 enters and must leave the window like any other),
+	// else 1..3, or anywhere in 0..40
+	var first uint64
+	switch x := rng.IntN(20); {
+	case x < 9:
+		first = 0
+	case x < 16:
+		first = uint64(1 + rng.IntN(3))
+	default:
+		first = uint64(rng.IntN(41))
 	}
+	H := first // last notified height once notified > 0
 	n := 3 + rng.IntN(maxOps)
 	pGap := 0
 	if gaps {
@@ -460,7 +484,9 @@ func genC31(rng interface{ IntN(int) int }, maxOps int, gaps bool) c31Case {
 		case x < pGap+pRe+pOpen:
 			c.Ops = append(c.Ops, c31Op{Kind: "reopen"})
 		default:
-			H++
+			if notified > 0 {
+				H++
+			}
 			c.Ops = append(c.Ops, c31Op{Kind: "notify", H: H})
 			notified++
 		}
@@ -553,14 +579,18 @@ func runC31Crash(c c31Case, st *c31Stats) (string, string) {
 	st.crashes++
 	var (
 		H        uint64
+		started  bool
 		notified = map[uint64]bool{}
 		maxH     = uint64(3)
 		gap      = c.hasGap()
 	)
 	for _, o := range c.Ops {
 		if o.Kind == "notify" {
+			if !started && o.H == 0 {
+				st.fromZero++
+			}
 			notified[o.H] = true
-			H = o.H
+			H, started = o.H, true
 			if o.H+2 > maxH {
 				maxH = o.H + 2
 			}
@@ -577,7 +607,7 @@ func runC31Crash(c c31Case, st *c31Stats) (string, string) {
 		if herr != "" {
 			return "harness", herr
 		}
-		if k, d := c31Judge(a, notified, H, c.Window, maxH, gap, fmt.Sprintf("open %d after crash-style stop", round), st); d != "" {
+		if k, d := c31Judge(a, notified, started, H, c.Window, maxH, gap, fmt.Sprintf("open %d after crash-style stop", round), st); d != "" {
 			return k, d
 		}
 		if prev != nil {
@@ -608,7 +638,7 @@ func TestC31(t *testing.T) {
 		t.Skip("parent only")
 	}
 	r := kit.Start(t, "C31", "fault_enumeration")
-	r.Rule("history = PRNG sequence over one chain of real chain.ExecutedBlock values (0..3 txs each, distinct results): consecutive Notify, Notify after a height gap (2..4, around the window, 5..44), repeated delivery of the last 1..W+1 notified blocks in order, clean restart (Close + NewIndexer on the same directory) at any point and at the end (often twice), plus crash-style stops (child process delivers the notifications and exits without Close; parent reopens twice). Windows {1,2,3,5,8}. After every op every height up to last+2, every block id and every tx id of the chain prefix is queried and compared with the model {notified heights, last height H}: present exactly for notified heights in (H-W, H] with the exact block / result / timestamp; GetLatestBlock = block H; the full answer vector must be identical before and after each restart. Non-trivial = more notifications than the window and at least one restart or re-delivery; distinct = distinct (window, op sequence).")
+	r.Rule("history = PRNG sequence over one chain of real chain.ExecutedBlock values (heights 0..420, 0..3 txs each, distinct results; the first notified height is 0 in ~45% of the histories - as a VM delivers its genesis block first -, else 1..3 or anywhere in 0..40): consecutive Notify, Notify after a height gap (2..4, around the window, 5..44), repeated delivery of the last 1..W+1 notified blocks in order, clean restart (Close + NewIndexer on the same directory) at any point and at the end (often twice), plus crash-style stops (child process delivers the notifications and exits without Close; parent reopens twice). Windows {1,2,3,5,8}. After every op every height 0..last+2, every block id and every tx id of the chain prefix is queried and compared with the model {notified heights, last height H}: present exactly for notified heights in (H-W, H] (height 0 included; while H < W nothing has left the window) with the exact block / result / timestamp; GetLatestBlock = block H; the full answer vector must be identical before and after each restart. Non-trivial = more notifications than the window and at least one restart or re-delivery; distinct = distinct (window, op sequence).")
 	r.Assume("notified heights increase except for repeated delivery, which re-sends the most recent notified blocks in their original order (answers are judged after the re-delivery finished, not in between)",
 		"the window is the same before and after a restart",
 		"each tx id occurs in one block only (C09)")
@@ -667,6 +697,15 @@ func TestC31(t *testing.T) {
 
 	// the scenario of the design probe, kept as a fixed case: window 3, heights 1,2,3,10,11, two restarts
 	judge(c31Case{Window: 3, Ops: []c31Op{{Kind: "notify", H: 1}, {Kind: "notify", H: 2}, {Kind: "notify", H: 3}, {Kind: "notify", H: 10}, {Kind: "notify", H: 11}, {Kind: "reopen"}, {Kind: "reopen"}}}, false)
+	// fixed cases: the chain is delivered from height 0 (as a VM does) and grows past the window, then restarts
+	for _, w := range c31Windows {
+		c := c31Case{Window: w}
+		for h := uint64(0); h <= w+2; h++ {
+			c.Ops = append(c.Ops, c31Op{Kind: "notify", H: h})
+		}
+		c.Ops = append(c.Ops, c31Op{Kind: "reopen"}, c31Op{Kind: "reopen"})
+		judge(c, false)
+	}
 
 	// histories run concurrently (each on its own directory; pebble writes are synchronous)
 	type job struct {
@@ -726,5 +765,8 @@ func TestC31(t *testing.T) {
 	r.Count("txs_served_and_matched", st.servedTxs)
 	r.Count("absent_answers_confirmed", st.absentAnswers)
 	r.Count("evictions_expected", st.evictionsObserved)
+	r.Count("histories_starting_at_height_0", st.fromZero)
+	r.Count("height_0_served_and_matched", st.genesisServed)
+	r.Count("height_0_absent_after_leaving_window", st.genesisAbsent)
 	r.Finish(r.N(120, 1500))
 }
